@@ -46,7 +46,28 @@ func TestCatalogue(t *testing.T) {
 		}
 		names["e/"+e.Name] = true
 	}
+	for _, e := range LimitEnvelopes() {
+		if names["e/"+e.Name] {
+			t.Errorf("duplicate envelope name %s", e.Name)
+		}
+		names["e/"+e.Name] = true
+		if a, b := e.New(), e.New(); a == b || a.Msg == b.Msg {
+			t.Errorf("%s: constructor does not return fresh values", e.Name)
+		}
+		if _, err := EncodeEnvelope(Native, e.New()); err != nil {
+			t.Errorf("%s: the native encoder refuses a value at the documented limit: %v", e.Name, err)
+		}
+	}
 	vals := Values()
+	for _, v := range LimitValues() {
+		if names["v/"+v.Name] {
+			t.Errorf("duplicate value name %s", v.Name)
+		}
+		names["v/"+v.Name] = true
+		if a, b := v.New(), v.New(); a == b {
+			t.Errorf("%s: constructor does not return fresh values", v.Name)
+		}
+	}
 	types := map[string]int{}
 	for _, v := range vals {
 		if names["v/"+v.Name] {
